@@ -138,5 +138,18 @@ impl Default for PurlParts {
             }
         }'''),
                        ]),
+           # GenericPurl::new == builder(type, name).build(): one hook application to the initial state, then the generic checks
+           dict(_c.GP_BUILDER, mode='contract_only', proved_in='purl'),
+           dict(id='U-acc.new', file='purl/src/lib.rs', fn='new', ctx=r'impl<T> GenericPurl<T>', wrap='impl<T> GenericPurl<T>',
+                properties=['C09', 'C04', 'C14'],
+                sig_rw=[('R0', r'T: PurlShape,', 'T: PurlShape', 1)] if False else [],
+                contract="""        ensures
+            exists|b: GenericPurlBuilder<T>, t1: T, p1: PurlParts, fr: Result<(), T::Error>|
+                b.package_type == package_type && b.parts.namespace@.len() == 0 && b.parts.version@.len() == 0 && b.parts.subpath@.len() == 0
+                && b.parts.qualifiers.qualifiers@.len() == 0
+                && (<SmallString as vstd::std_specs::convert::FromSpec<S>>::obeys_from_spec() ==> b.parts.name == <SmallString as vstd::std_specs::convert::FromSpec<S>>::from_spec(name))
+                && #[trigger] T::finish_rel(b.package_type, b.parts, t1, p1, fr) && build_post::<T>(t1, p1, fr, r),
+            r is Ok ==> r->Ok_0.parts.qualifiers.wf() && r->Ok_0.parts.name@.len() > 0""",
+                hints=[(r'Self::builder\(package_type, name\)\.build\(\)', 'before', '        proof { assert(wf_seq(Seq::<(QualifierKey, SmallString)>::empty())); }')]),
     ],
 )
